@@ -386,6 +386,10 @@ class Ctx:
             raise Unsupported("no method %s" % name)
         return self._run(lambda: self.I.call_func(f, [obj] + list(args), kwargs, force_body=True))
 
+    def iterate(self, obj):
+        """consume an iterable of the code under contract (runs __iter__ / the generator)"""
+        return self._run(lambda: list(self.I.iterate(obj)))
+
     def spec(self, fn, *args, **kwargs):
         """run a spec/summary function, turning ctx.raise_ into an Outcome"""
         try:
